@@ -701,6 +701,28 @@ def check_c03(ctx, op, kept, outcome, val, rex, reg):
                   'returned: %r\nopts=%r size=%r seed=%r'
                   % (bad[:5], rex, op.get('opts'), op.get('size'),
                      op.get('seed')))
+        return
+    opts = op.get('opts', {})
+    if opts.get('strip') and op['form'] != 'series':
+        # ... and as it was supplied (rexpy pads with \s* when it strips)
+        if op['form'] == 'dict':
+            sup = [s for s, n in zip(op['examples'], op['freqs'])
+                   if s is not None and n]
+        else:
+            sup = [s for s in op['examples'] if s is not None]
+        sup = [s for s in sup if s != s.strip() and not (
+            opts.get('remove_empties') and s.strip() == '')]
+        bad = [s for s in sup if not any(matches(c, s) for c in crs)]
+        ctx.stats['checks']['padded_examples_checked'] += len(sup)
+        if sup:
+            ctx.stats['probes']['padded_examples_with_strip'] += 1
+        if bad:
+            blank = all(s.strip() == '' for s in bad)
+            violation(ctx, op, 'unmatched-as-supplied', '%s/%s' % (
+                reg, 'blank' if blank else 'padded'),
+                'with strip, examples as supplied are not matched by any '
+                'returned expression: %r\nreturned: %r\nopts=%r'
+                % (bad[:5], rex, opts))
 
 
 def check_c14_state(ctx, op, obs, reg):
@@ -809,6 +831,14 @@ def run_tagpair(ctx, op, kept):
                     break
 
 
+def end_anchored(x):
+    """Ends with an end anchor: a dollar that is not itself escaped."""
+    if not x.endswith('$'):
+        return False
+    body = x[:-1]
+    return (len(body) - len(body.rstrip('\\'))) % 2 == 0
+
+
 def check_c13_list(ctx, op, kept, rex, which, reg):
     opts = op.get('opts', {})
     if not kept:
@@ -823,7 +853,7 @@ def check_c13_list(ctx, op, kept, rex, which, reg):
             violation(ctx, op, 'does-not-compile', '%s/%s' % (which, reg),
                       '%r: %s' % (x, c))
             return
-        if not (x.startswith('^') and x.endswith('$')):
+        if not (x.startswith('^') and end_anchored(x)):
             violation(ctx, op, 'not-anchored', which, '%r' % x)
             return
     if len(set(rex)) != len(rex):
